@@ -177,10 +177,12 @@ class V3Spec:
         scan_from = len(out)
         out += self.pre_stackshot + STACKSHOT_END
         # unambiguity: the first occurrence of the marker must be the intended one
-        assert bytes(out).find(STACKSHOT_END, scan_from) == len(out) - len(STACKSHOT_END), 'ambiguous stackshot filler'
+        if bytes(out).find(STACKSHOT_END, scan_from) != len(out) - len(STACKSHOT_END):      # (raise, not assert: python -O)
+            raise AssertionError('ambiguous stackshot filler')
         scan_from = len(out)
         out += self.pre_threadmap + TAG_THREADMAP
-        assert bytes(out).find(TAG_THREADMAP, scan_from) == len(out) - 8, 'ambiguous threadmap filler'
+        if bytes(out).find(TAG_THREADMAP, scan_from) != len(out) - 8:
+            raise AssertionError('ambiguous threadmap filler')
         tm = b''.join(threadmap_entry(*e) for e in self.entries) + self.threadmap_tail
         out += u(len(tm), 8) + tm
         record_offsets = []
@@ -190,7 +192,8 @@ class V3Spec:
                 out += TAG_MORE_EVENTS
             scan_from = len(out)
             out += self.chunk_fillers[ci] + TAG_EVENTS
-            assert bytes(out).find(TAG_EVENTS, scan_from) == len(out) - 8, 'ambiguous events filler'
+            if bytes(out).find(TAG_EVENTS, scan_from) != len(out) - 8:
+                raise AssertionError('ambiguous events filler')
             slack = self.chunk_slack[ci] if ci < len(self.chunk_slack) else b''
             out += u(64 * len(chunk) + len(slack), 8) + b'\x00' * 8
             for r in chunk:
